@@ -156,7 +156,7 @@ def _aborteq(exe, work, args, tag, R):
 def run(prop, tier, seed):
     T = TIERS[tier][prop]
     R = vlib.Result(prop, tier, seed)
-    searchmc.run(prop, tier, R, regression=(prop == "C06"))
+    searchmc.run(prop, tier, R, regression=(prop == "C06"), seed=seed)
     exe = vlib.build_harness()
     work = vlib.workdir("search_" + prop)
     try:
